@@ -4,7 +4,8 @@ import json, os, sys
 sys.path.insert(0, os.path.dirname(os.path.abspath(__file__)))
 import props
 ALL = [json.loads(l)['id'] for l in open('/verif/properties.jsonl')]
-TEXT = json.load(open('/verif/tools/manifest_text.json'))
+import manifest_text
+TEXT = {k: {'text': v[0], 'design_ref': 'DESIGN.md section ' + v[1], 'note': manifest_text.COMMON_NOTE, 'technique': manifest_text.TECH} for k, v in manifest_text.T.items()}
 checks, na = [], []
 for pid in ALL:
     if pid in props.PROPS and not props.PROPS[pid].get('unclaimed'):
